@@ -1105,4 +1105,47 @@ theorem periodic_no_drift_from (P : Nat → List Cmd) (ops : List Op) : ∀ (s :
       exact ⟨p2, hp2, b1, ⟨b2.1, fun hb hz => b2.2 (fun d hd' => hb d (List.mem_append.mpr (Or.inr hd')))
         (F.slack_zero (fun d hd' => hb d (List.mem_append.mpr (Or.inl hd'))) hz)⟩, b3⟩
 
+/-! ## mode-level histories (`mflat`) -/
+
+theorem run_append (P : Nat → List Cmd) (a b : List Op) : ∀ (s s1 s2 : St) (t1 t2 : List Obs),
+    run P s a = some (s1, t1) → run P s1 b = some (s2, t2) → run P s (a ++ b) = some (s2, t1 ++ t2) := by
+  induction a with
+  | nil => intro s s1 s2 t1 t2 h1 h2; simp [run] at h1; obtain ⟨rfl, rfl⟩ := h1; simpa using h2
+  | cons op a ih =>
+    intro s s1 s2 t1 t2 h1 h2
+    obtain ⟨r1, r2, e1, e2, e3⟩ := run_cons h1
+    injection e3 with e3a e3b; subst e3a; subst e3b
+    have := ih r1.1 r2.1 s2 r2.2 t2 e2 h2
+    simp [run, e1, this]
+
+theorem mflat_append (a b : List MOp) : ∀ ph, mflat ph (a ++ b) = mflat ph a ++ mflat (mphase ph a) b := by
+  induction a with
+  | nil => intro ph; rfl
+  | cons x a ih =>
+    intro ph
+    cases x with
+    | op o => simp [mflat, mphase, ih]
+    | stop => cases ph <;> simp [mflat, mphase, ih]
+    | finish =>
+      rcases ph with _ | _ | ph <;> simp [mflat, mphase, ih]
+
+/-- `delay.clear()` from the top level: every live handle of the manager is cancelled, nothing is left -/
+theorem clear_step (P : Nat → List Cmd) (s : St) (i : Inv s) (r : St × List Obs) (h : run P s [.cmd .clear] = some r) :
+    (∀ hd ∈ s.live, .cancel hd.hid ∈ r.2) ∧ r.1.live = [] ∧ r.1.delays = [] ∧ r.1.now = s.now := by
+  have e : r = ((doClear s).1, (doClear s).2) := by
+    simp [run, step, exec, fuel, stepCmd, cont] at h
+    rw [← h]
+  subst e
+  refine ⟨?_, ?_, rfl, rfl⟩
+  · intro hd hh
+    have := i.live_entry hd hh
+    simp only [doClear, List.mem_map]
+    exact ⟨entryOf hd, this, rfl⟩
+  · have g := doClear_good s i
+    cases hl : (doClear s).1.live with
+    | nil => rfl
+    | cons x r =>
+      have := g.inv.live_entry x (by rw [hl]; simp)
+      simp [doClear] at this
+
 end MpfVerif.Delay
